@@ -42,7 +42,29 @@ def tag(v):
     return ['n'] if v is None else ['i', v]
 
 
-def real_rows(tbl):
+# variant text (deduplicate): the same abstract table with TEXT cells, one injective relabelling per field, chosen so that different
+# key tuples have the same rendering once their values are glued together ('db' + '10:30' / 'db:10' + '30', None / 'None', '1' / 1):
+# rows are duplicates iff their key TUPLES are equal
+TEXT = {'a': {1: 'db', 2: 'db:10', -1: 'None', 0: '', -2: 'None:'}, 'b': {1: '10:30', 2: '30', -1: 'None', 0: 'x', -2: ':'}}
+
+
+def enc_text(f, v):
+    if v is None:
+        return None
+    return TEXT[f][v] if f in TEXT else 's%d' % v
+
+
+def dec_text(f, v):
+    if v is None:
+        return None
+    if f in TEXT:
+        return {t: k for k, t in TEXT[f].items()}[v]
+    return int(v[1:])
+
+
+def real_rows(tbl, text=False):
+    if text:
+        return [{f: enc_text(f, py(r[f])) for f in FIELDS} for r in tbl]
     return [{f: py(r[f]) for f in FIELDS} for r in tbl]
 
 
@@ -55,8 +77,10 @@ def run_op(tbl, op, arg, variant):
     twin = bool(variant.get('twin'))
     only = variant.get('only') if twin else None          # 0 / -1: the step is restricted to the first / the last of the two resources
     selkw = {} if only is None else dict(resources=only)
-    src = tuple_source(([('t0', [(f, 'integer') for f in FIELDS], real_rows(tbl))] if twin else []) +
-                       [('t', [(f, 'integer') for f in FIELDS], real_rows(tbl))])
+    text = bool(op == 'dedup' and variant.get('text'))
+    ftype = 'string' if text else 'integer'
+    src = tuple_source(([('t0', [(f, ftype) for f in FIELDS], real_rows(tbl, text))] if twin else []) +
+                       [('t', [(f, ftype) for f in FIELDS], real_rows(tbl, text))])
     if op == 'filter':
         if arg['kind'] == 'callable':
             step = DF.filter_rows(condition=lambda r: r['a'] != -1, **selkw)
@@ -82,11 +106,13 @@ def run_op(tbl, op, arg, variant):
         links = [src, DF.unpivot(uf, [dict(name='k', type='array' if listkey else 'string')], dict(name='v', type='integer'), regex=regex, **selkw)]
     if variant.get('preused'):
         from ..common import preuse
-        preuse(links[1:], lambda: tuple_source(([('t0', [(f, 'integer') for f in FIELDS], real_rows(tbl))] if twin else []) +
-                                               [('t', [(f, 'integer') for f in FIELDS], real_rows(tbl))]))
+        preuse(links[1:], lambda: tuple_source(([('t0', [(f, ftype) for f in FIELDS], real_rows(tbl, text))] if twin else []) +
+                                               [('t', [(f, ftype) for f in FIELDS], real_rows(tbl, text))]))
     with contextlib.redirect_stdout(io.StringIO()):
         ds = Flow(*links).datastream()
         streams = [[dict(r) for r in res] for res in ds.res_iter]
+        if text:
+            streams = [[{f: dec_text(f, v) for f, v in r_.items()} for r_ in st] for st in streams]
         if op == 'unpivot' and listkey:
             for st in streams:
                 ks = [r_['k'] for r_ in st if isinstance(r_.get('k'), list)]
@@ -153,7 +179,7 @@ def random_case(item):
                         [dict(pat=lit('a'), key='name'), dict(pat=lit('b'), key='name')],
                         [dict(pat=lit('xa'), key='const'), dict(pat=rex, key='group')], [dict(pat=rex, key='name'), dict(pat=lit('xb'), key='const')]])
     try:
-        rows, fields = run_op(tbl, op, arg, dict(twice=False, twin=r.random() < 0.4))
+        rows, fields = run_op(tbl, op, arg, dict(twice=False, twin=r.random() < 0.4, text=r.random() < 0.5))
     except Exception as e:
         return dict(raised='%s: %s' % (type(e).__name__, str(e)[:200]), op=op, arg=arg)
     return dict(tbl=tbl, op=op, arg=arg, out=project(op, rows, fields))
@@ -177,7 +203,7 @@ def run():
     setup_repo()
     r = rng(PROP)
     cases = model(rep, t)
-    items = [dict(case=c, variant=dict(merged=r.random() < 0.5, twice=r.random() < 0.5, noregex=r.random() < 0.5, twin=r.random() < 0.35, preused=r.random() < 0.3, only=r.choice([None, None, 0, -1]), listkey=r.random() < 0.5)) for c in cases]
+    items = [dict(case=c, variant=dict(merged=r.random() < 0.5, twice=r.random() < 0.5, noregex=r.random() < 0.5, twin=r.random() < 0.35, preused=r.random() < 0.3, only=r.choice([None, None, 0, -1]), listkey=r.random() < 0.5, text=r.random() < 0.5)) for c in cases]
     res = pmap(replay_case, items, chunksize=32)
     errs = harness_errors(res)
     if errs:
